@@ -22,24 +22,55 @@ EXPLANATION = (
 def producers(ctx, rule='A5'):
     fn = ctx.fn(f'{GP}.get_all_discrete_x')
     txt = FnText(ctx, fn)
-    from ..rules.match import Matcher
-    m_ = Matcher(fn, ctx.prog)
-    acts = m_.find('is_active = x != X_INACTIVE_VALUE')
-    imps = m_.find('x[x[:, i_dv] == X_INACTIVE_VALUE, i_dv] = inactive_value')
-    i_act = acts[0].lineno if acts else -1
-    i_imp = imps[0].lineno if imps else -1
-    ok = 0 <= i_act < i_imp
+    from ..cfg import build_cfg
+    cfg = build_cfg(fn)
+    # activeness definition `<act> = <x> != X_INACTIVE_VALUE` and the stores that replace marked entries of <x> by
+    # the canonical inactive value (the value comes from _get_inactive_value, directly or through a local)
+    defs = [n for n in cfg.nodes if n.kind == 'stmt' and isinstance(n.ast, ast.Assign) and
+            isinstance(n.ast.value, ast.Compare) and len(n.ast.value.ops) == 1 and
+            isinstance(n.ast.value.ops[0], ast.NotEq) and norm(n.ast.value.comparators[0]) == 'X_INACTIVE_VALUE' and
+            isinstance(n.ast.value.left, ast.Name)]
+    canon = {norm(a.targets[0]) for a in walk_fn(fn) if isinstance(a, ast.Assign) and
+             '_get_inactive_value(' in norm(a.value)}
+
+    def is_imputation(n, arr):
+        a = n.ast
+        return n.kind == 'stmt' and isinstance(a, ast.Assign) and isinstance(a.targets[0], ast.Subscript) and \
+            norm(a.targets[0].value) == arr and ('_get_inactive_value(' in norm(a.value) or norm(a.value) in canon)
+    ok, i_act, i_imp, imps, act = False, -1, -1, [], None
+    for d in defs:
+        arr = d.ast.value.left.id
+        imps = [n for n in cfg.nodes if is_imputation(n, arr)]
+        act = norm(d.ast.targets[0])
+        i_act = d.lineno
+        i_imp = imps[0].lineno if imps else -1
+        ok = bool(imps) and all(cfg.can_reach(d, s_) and not cfg.can_reach(s_, d) for s_ in imps)
+        if ok:
+            break
     ctx.ob(rule, fkey(fn, rule, 'enumeration-activeness-before-imputation'), ok, fn.where,
            'the enumeration derives activeness from the -1 marks (`x != X_INACTIVE_VALUE`) before it replaces '
            'them by the canonical inactive values', f'activeness at line {i_act}, imputation at line {i_imp}')
-    ok = 'x[x[:, i_dv] == X_INACTIVE_VALUE, i_dv] = inactive_value' in txt and \
-        'inactive_value = self._get_inactive_value(dv)' in txt
+    # the replaced rows are exactly the marked ones of that column: selected by `== X_INACTIVE_VALUE` on the column or
+    # by the negated activeness of the column
+    def marked_rows(sel):
+        t_ = norm(sel)
+        if isinstance(sel, ast.Compare) and len(sel.ops) == 1 and isinstance(sel.ops[0], ast.Eq) and \
+                norm(sel.comparators[0]) == 'X_INACTIVE_VALUE':
+            return True
+        return isinstance(sel, ast.UnaryOp) and isinstance(sel.op, ast.Invert) and act is not None and \
+            t_.startswith(f'~{act}[')
+    ok = bool(imps) and all(isinstance(s_.ast.targets[0].slice, ast.Tuple) and
+                            marked_rows(s_.ast.targets[0].slice.elts[0]) for s_ in imps)
     ctx.ob(rule, fkey(fn, rule, 'enumeration-imputes-canonical'), ok, fn.where,
            'the enumeration imputes exactly the marked entries with _get_inactive_value of that variable', '')
     ok = 'x = -np.ones((dv_sel.shape[0], n_dv), dtype=int)' in txt
     ctx.ob(rule, fkey(fn, rule, 'enumeration-starts-all-inactive'), ok, fn.where,
            'the enumeration table starts all-inactive (-1): a variable is active only where a value was written', '')
-    ok = 'x[i_combs == i_comb, dv_idx] = 0' in txt
+    marks = [a for a in walk_fn(fn) if isinstance(a, ast.Assign) and isinstance(a.targets[0], ast.Subscript) and
+             isinstance(a.value, ast.Constant) and a.value.value == 0 and
+             isinstance(a.targets[0].slice, ast.Tuple) and 'i_combs' in norm(a.targets[0].slice.elts[0]) and
+             norm(a.targets[0].slice.elts[1]) == 'dv_idx']
+    ok = bool(marks)
     ctx.ob(rule, fkey(fn, rule, 'continuous-marked-active-where-node-exists'), ok, fn.where,
            'a continuous design-variable node is marked active exactly in the combinations where the node exists',
            '')
